@@ -933,6 +933,7 @@ def tokOf (s : String) : Option Tok :=
     | 'a' :: r => (String.ofList r).toNat?.map .atom
     | 'o' :: r => (String.ofList r).toNat?.map .bop
     | 'u' :: r => (String.ofList r).toNat?.map .uop
+    | 'c' :: r => (String.ofList r).toNat?.map .cls
     | _ => none
 
 def render : E → String
